@@ -369,7 +369,7 @@ class AntexParser(ChainParser):
                 if "valid_until" in cache:
                     tmp["valid_until"] = cache["valid_until"]
                 else:
-                    tmp["valid_until"] = datetime.datetime.now()
+                    tmp["valid_until"] = datetime.datetime.max  # Still valid (no end of validity period given)
 
             # Determine elevation list
             if cache["dzen"] != 0.0:
